@@ -11,32 +11,6 @@ Definition frozen_model_get_values_for_field_in_policy : text := (T "8b17eb7db04
 Definition frozen_model_remove_policy : text := (T "f99bf6dd11a6c891").
 Definition frozen_model_remove_policies : text := (T "133d83e2d57cdbaf").
 Definition frozen_model_remove_filtered_policy : text := (T "6ea2c18b99958b21").
-Definition frozen_adapters_file_load_policy_file : text := (T "cbfd9d4b823523e2").
-Definition frozen_adapters_file_load_filtered_policy_file : text := (T "d407fd49afea6c5a").
-Definition frozen_adapters_file_save_policy_file : text := (T "856603835ad335f0").
-Definition frozen_adapters_file_load_policy : text := (T "3e82caa54bafd708").
-Definition frozen_adapters_file_load_filtered_policy : text := (T "bd44d2106ba6f4c4").
-Definition frozen_adapters_file_save_policy : text := (T "8e301aa7bc4adfce").
-Definition frozen_adapters_file_clear_policy : text := (T "ebc7b2acb856d769").
-Definition frozen_adapters_file_add_policy : text := (T "17f314d3301a7ab5").
-Definition frozen_adapters_file_add_policies : text := (T "17f314d3301a7ab5").
-Definition frozen_adapters_file_remove_policy : text := (T "17f314d3301a7ab5").
-Definition frozen_adapters_file_remove_policies : text := (T "17f314d3301a7ab5").
-Definition frozen_adapters_file_remove_filtered_policy : text := (T "17f314d3301a7ab5").
-Definition frozen_adapters_str_save_policy : text := (T "87813e5280e42f6e").
-Definition frozen_adapters_str_clear_policy : text := (T "ae9f50490db81470").
-Definition frozen_adapters_str_add_policy : text := (T "23bd3bc27f25d0e8").
-Definition frozen_adapters_str_add_policies : text := (T "23bd3bc27f25d0e8").
-Definition frozen_adapters_str_remove_policy : text := (T "23bd3bc27f25d0e8").
-Definition frozen_adapters_str_remove_policies : text := (T "23bd3bc27f25d0e8").
-Definition frozen_adapters_str_remove_filtered_policy : text := (T "23bd3bc27f25d0e8").
-Definition frozen_fmap_key_match2 : text := (T "643c777d0b2b90e9").
-Definition frozen_fmap_key_get2 : text := (T "108fb981e8dc8476").
-Definition frozen_fmap_key_match3 : text := (T "aaa4275d1ffa444d").
-Definition frozen_fmap_key_get3 : text := (T "fa0781cd2cbc52b8").
-Definition frozen_fmap_key_match4 : text := (T "0e76514ff6467499").
-Definition frozen_fmap_key_match5 : text := (T "a0f3af05ee93c2b9").
-Definition frozen_fmap_regex_match : text := (T "ad0b7050d4ff5010").
 Definition frozen_fmacros_all : text := (T "1c0b65402f5cf2e7").
 Definition frozen_fmgmtapi_all : text := (T "531585651af18068").
 Definition frozen_frbacapi_all : text := (T "e7aefe767c6b1197").
